@@ -104,6 +104,9 @@ def run(ctx: Ctx) -> None:
     # execution stops exactly when the pc passes the last instruction: run() is the plain step loop (C13's rule, TOY half)
     from .c13 import run_rule
     run_rule(ctx, "R06.run", classes=("ToySimulation",))
+    # "from any initial memory": a loaded program starts from its own image -- load_program builds a fresh state on every path (C13's rule)
+    from .c13 import load_rules
+    load_rules(ctx, "R06.load")
     tab = toy_table(ctx)
     rows = tab["rows"]
     sim = m.cls("ToySimulation")
